@@ -3,7 +3,7 @@
    Model: Tcp/Sender.v (TCPPacketGenerator.put / timeout_callback / run + CongestionControl).
    [fx] ranges over the repair flags; every theorem that needs the deflation repair says so. *)
 From Coq Require Import ZArith QArith Qabs Qminmax List.
-From ONL Require Import Tcp.Sender Tcp.SenderProofs Gen.Extracted_cc Tcp.CcBridge Tcp.Cubic Tcp.CubicProofs.
+From ONL Require Import Tcp.Sender Tcp.SenderProofs Gen.Extracted_cc Tcp.CcBridge Tcp.Cubic Tcp.CubicProofs Tcp.CubicBridge.
 Import ListNotations.
 Open Scope Z_scope.
 
@@ -268,10 +268,10 @@ Print Assumptions C17_cubic_friendliness_gain.
 (* the cubic / TCP-friendly growth: congestion avoidance with a running epoch *)
 Theorem C17_cubic_growth_rule : forall cs cw ss rtt now,
   ~ (cw <= ss)%Q -> (0 < c_epoch cs)%Q ->
-  let dmin := if Qltb 0 (c_dmin cs) then (if Qltb rtt (c_dmin cs) then rtt else c_dmin cs) else rtt in
+  let dmin := if Qltb 0 (c_dmin cs) then (if Qle_bool (c_dmin cs) rtt then c_dmin cs else rtt) else rtt in
   let t := (now + dmin - c_epoch cs)%Q in
   let target := (c_origin cs + (2 # 5) * ((t - c_k cs) * (t - c_k cs) * (t - c_k cs)))%Q in
-  let wtcp := (c_wtcp cs + (3 # 1) * cBeta / ((2 # 1) - cBeta) * (inject_Z (c_ackcnt cs + 1) / cw))%Q in
+  let wtcp := (c_wtcp cs + (3 # 1) * cBeta / ((2 # 1) - cBeta) * ((c_ackcnt cs + 1) / cw))%Q in
   let cnt1 := if Qltb cw target then (cw / (target - cw))%Q else ((100 # 1) * cw)%Q in
   cubic_ack cs cw ss rtt now =
   CubOk (mkcub (c_wlast cs) (c_epoch cs) (c_origin cs) dmin wtcp (c_k cs) 0)
@@ -282,10 +282,10 @@ Print Assumptions C17_cubic_growth_rule.
 (* a new epoch: origin_point = cwnd, epoch_start = now, W_tcp = cwnd, K = 0 *)
 Theorem C17_cubic_epoch_start_rule : forall cs cw ss rtt now,
   ~ (cw <= ss)%Q -> (c_epoch cs <= 0)%Q -> ~ (cw < c_wlast cs)%Q ->
-  let dmin := if Qltb 0 (c_dmin cs) then (if Qltb rtt (c_dmin cs) then rtt else c_dmin cs) else rtt in
+  let dmin := if Qltb 0 (c_dmin cs) then (if Qle_bool (c_dmin cs) rtt then c_dmin cs else rtt) else rtt in
   let t := (now + dmin - now)%Q in
   let target := (cw + (2 # 5) * ((t - 0) * (t - 0) * (t - 0)))%Q in
-  let wtcp := (cw + (3 # 1) * cBeta / ((2 # 1) - cBeta) * (inject_Z 1 / cw))%Q in
+  let wtcp := (cw + (3 # 1) * cBeta / ((2 # 1) - cBeta) * (1 / cw))%Q in
   let cnt1 := if Qltb cw target then (cw / (target - cw))%Q else ((100 # 1) * cw)%Q in
   cubic_ack cs cw ss rtt now =
   CubOk (mkcub (c_wlast cs) now cw dmin wtcp 0 0)
@@ -297,7 +297,7 @@ Theorem C17_cubic_slow_start_rule : forall cs cw ss rtt now,
   (cw <= ss)%Q ->
   cubic_ack cs cw ss rtt now =
   CubOk (mkcub (c_wlast cs) (c_epoch cs) (c_origin cs)
-               (if Qltb 0 (c_dmin cs) then (if Qltb rtt (c_dmin cs) then rtt else c_dmin cs) else rtt)
+               (if Qltb 0 (c_dmin cs) then (if Qle_bool (c_dmin cs) rtt then c_dmin cs else rtt) else rtt)
                (c_wtcp cs) (c_k cs) (c_ackcnt cs)) None.
 Proof. exact cubic_slow_start_rule. Qed.
 Print Assumptions C17_cubic_slow_start_rule.
@@ -324,3 +324,31 @@ Theorem C17_cubic_new_ack_rule : forall fx c s cs ackno pid sample now cs' q,
         end).
 Proof. exact cubic_new_ack_rule. Qed.
 Print Assumptions C17_cubic_new_ack_rule.
+
+(* --- second tie for TCPCubic: the bodies of ack_received (calling cubic_update, calling
+   cubic_tcp_friendliness), timer_expired (calling cubic_reset) and the constants beta, C,
+   tcp_friendliness of __init__, translated from /repo on this run, are the model of Tcp/Cubic.v and
+   cc_ack.  [G] embeds a model state into the generated record; the `** (1/3)` branch is translated as
+   the explicit result None and corresponds to CubicRoot. --- *)
+Theorem C17_gen_cubic_consts : g_cubic_init_beta = cBeta /\ g_cubic_init_C = cC /\ g_cubic_init_tcp_friendliness = true.
+Proof. exact bridge_cubic_consts. Qed.
+Print Assumptions C17_gen_cubic_consts.
+
+Theorem C17_gen_cubic_timer_expired : forall m cw ss cs cn ccnt,
+  exists g', g_TCPCubic_timer_expired (G m cw ss cs cn ccnt) = Some g' /\ gc_eq g' (G m m ss (cubic_reset cs) cn ccnt).
+Proof. exact bridge_cubic_timer_expired. Qed.
+Print Assumptions C17_gen_cubic_timer_expired.
+
+Theorem C17_gen_cubic_ack_received : forall c cs cw ss ccnt cn rtt now,
+  calg c = Cubic ->
+  match cubic_ack cs cw ss rtt now with
+  | CubicRoot => g_TCPCubic_ack_received (G (zq (mss c)) cw ss cs cn ccnt) rtt now = None
+  | CubOk cs' q =>
+      exists g', g_TCPCubic_ack_received (G (zq (mss c)) cw ss cs cn ccnt) rtt now = Some g' /\
+                 match cc_ack c cw ss ccnt cn (match q with Some x => x | None => cn end) with
+                 | Some (cw', ccnt', cn') => gc_eq g' (G (zq (mss c)) cw' ss cs' cn' ccnt')
+                 | None => False
+                 end
+  end.
+Proof. exact bridge_cubic_ack_received. Qed.
+Print Assumptions C17_gen_cubic_ack_received.
